@@ -199,6 +199,11 @@ def monotone_frames_rule(F, G, rep):
                 muts.append((b["path"], "assign", tir.sp(node)))
     bad = [m for m in muts if m[1] not in ("push",)]
     rep.ob("monotone.frames", not bad and len(muts) >= 1, "frames.id", "mutators", "the frame-id column is mutated other than by push: %s" % bad[:3], sample={"mutators": muts})
+    # the frame count both APIs report is the number of rows, not something derived from frame ids (ids repeat on rollbacks)
+    for fn, want in (("<io::slippi::de::ParseState as game::Game>::len", "self.game.frames.len()"), ("<game::immutable::Game as game::Game>::len", "self.frames.id.len()")):
+        b = F.body(fn)
+        got = tir.pretty(L.strip_try(b["tir"]["value"])) if b else None
+        rep.ob("monotone.count", got in (want, "self.game.frames.id.len()", "self.frames.len()"), fn, "len", "%s must report the number of frame rows (%s), got %s" % (fn, want, got))
     lb = F.body("frame::mutable::Frame::len")
     rep.ob("monotone.len", lb is not None and tir.pretty(L.strip_try(lb["tir"]["value"])) == "self.id.len()", "frame::mutable::Frame::len", "len", "the frame count must be the length of the id column")
 
